@@ -33,6 +33,8 @@ impl EventSubscriber {
     }
 
     pub fn subscribe(self, c: CoroutineImpl) {
+        #[cfg(may_verif)]
+        may_queue::verif::point(may_queue::verif::site::RUN_CO_EXIT, get_co_local(&c) as usize);
         let resource = unsafe { &mut *self.resource };
         resource.subscribe(c);
     }
@@ -283,6 +285,8 @@ impl Builder {
             // set the return packet
             their_packet.store(f());
 
+            #[cfg(may_verif)]
+            may_queue::verif::point(may_queue::verif::site::CO_DONE_BEFORE_TRIGGER, 0);
             their_join.trigger();
             subscriber
         };
@@ -353,6 +357,8 @@ impl Builder {
         let id = self.id;
         let (co, handle) = self.spawn_impl(f)?;
         let s = get_scheduler();
+        #[cfg(may_verif)]
+        may_queue::verif::point(may_queue::verif::site::SPAWN_BEFORE_SCHEDULE, 0);
 
         match id {
             None => s.schedule_global(co),
@@ -519,9 +525,13 @@ pub fn park_timeout(dur: Duration) {
 /// run the coroutine
 #[inline]
 pub(crate) fn run_coroutine(mut co: CoroutineImpl) {
+    #[cfg(may_verif)]
+    may_queue::verif::point(may_queue::verif::site::RUN_CO_ENTER, get_co_local(&co) as usize);
     match co.resume() {
         Some(ev) => ev.subscribe(co),
         None => {
+            #[cfg(may_verif)]
+            may_queue::verif::point(may_queue::verif::site::RUN_CO_EXIT, get_co_local(&co) as usize);
             // panic happened here
             let local = unsafe { &mut *get_co_local(&co) };
             let join = local.get_join();
@@ -529,6 +539,8 @@ pub(crate) fn run_coroutine(mut co: CoroutineImpl) {
             if let Some(panic) = co.get_panic_data() {
                 join.set_panic_data(panic);
             }
+            #[cfg(may_verif)]
+            may_queue::verif::point(may_queue::verif::site::CO_PANIC_BEFORE_TRIGGER, 0);
             // trigger the join here
             join.trigger();
             Done::drop_coroutine(co);
